@@ -167,6 +167,8 @@ StepRules(st, self, types, cache) ==
   \cup (IF (k = "OnDataQueued" /\ st.ret = "pause") => (st.reply.kind = "Update" /\ ~st.reply.isReq /\ st.reply.paused /\ st.reply.tid = id.tid)
         THEN {} ELSE {"C08.tellInitiator"})
   \cup (IF (k \in {"OnDataQueued","OnDataReceived"} /\ has /\ ~term) => ((st.ret \in {"pause"}) = (exp.ret = "pause") \/ (st.ret = "other" /\ exp.ret = "other")) THEN {} ELSE {"C08.pauseAt"})
+  (* a block report that crosses the limit never returns "carry on": the transport hears the pause signal, or an error when the pause could not be announced *)
+  \cup (IF (k \in {"OnDataQueued","OnDataReceived"} /\ has /\ ~term /\ applied("DataLimitExceeded")) => st.ret \in {"pause","other"} THEN {} ELSE {"C08.limitStopsTransport"})
   \cup (IF (k = "UpdateValidation" /\ has /\ ~term /\ ~amInit /\ script.accepted /\ st.ret = "nil" /\ pre.status \notin Cleanup)
            => /\ (~stayAfter /\ RespPausedView(pre) /\ pre.status \notin InFinalization)
                    => (Has(TrOf(st.tr, "resume"), LAMBDA t : ~t.msg.paused /\ t.msg.accepted) /\ (Dest("ResumeResponder", pre.status) # "INV" => ~post.rp) /\ post.limit = script.limit)
